@@ -61,7 +61,7 @@ struct task_obs
     std::ptrdiff_t min_avail = 0;
     bool consumed = false;
     bool interrupted = false;
-    bool finished = false;
+    bool finished = false, other_exception = false;
     char guard_perm[8] = "-";
 };
 
@@ -78,16 +78,29 @@ struct runner
 
     static void yield_fn(void* p)
     {
+        // called through the assembly routine c12_regcheck (no unwind information): an exception
+        // must not leave this function
         runner* r = static_cast<runner*>(p);
-        if (r->sleep_now)
+        try
         {
-            // a real suspension: the mutex is held across a yield, so contenders suspend inside
-            // lock() and are resumed by whoever unlocks (usually on another worker)
-            std::unique_lock<pika::mutex> l(g_pm);
-            pika::this_thread::yield();
+            if (r->sleep_now)
+            {
+                // a real suspension: the mutex is held across a yield, so contenders suspend inside
+                // lock() and are resumed by whoever unlocks (usually on another worker)
+                std::unique_lock<pika::mutex> l(g_pm);
+                pika::this_thread::yield();
+            }
+            else
+                pika::this_thread::yield();
         }
-        else
-            pika::this_thread::yield();
+        catch (pika::thread_interrupted const&)
+        {
+            r->o.interrupted = true;
+        }
+        catch (...)
+        {
+            r->o.other_exception = true;
+        }
     }
     bool sleep_now = false;
     std::size_t last_worker = 0;
@@ -163,6 +176,10 @@ struct runner
         o.tid = reinterpret_cast<std::uintptr_t>(self.get());
         o.start_intr_req = pika::this_thread::interruption_requested();
         o.start_intr_enabled = pika::this_thread::interruption_enabled();
+        // an inherited request would abort this task (or terminate the process from inside a noexcept
+        // completion) at its next yield: record it above, then clear it so that the task can report
+        if (o.start_intr_req) td::get_thread_id_data(self)->interrupt(false);
+        if (!o.start_intr_enabled) td::get_thread_id_data(self)->set_interruption_enabled(true);
         o.start_data = pika::this_thread::get_thread_data();
         o.stack_size = pika::this_thread::get_stack_size();
         o.avail_at_start = pika::this_thread::get_available_stack_space();
@@ -280,14 +297,14 @@ int main(int argc, char** argv)
                         "start_intr_req=%d start_intr_enabled=%d start_data=%lx exit_cb_accepted=%d stack_size=%lx "
                         "avail_at_start=%ld overlap=%d canary_ok=%d locals_ok=%d data_ok=%d id_ok=%d regmask=%lx "
                         "migrations=%d resumes=%d fp_changed=%d fp_foreign=%d min_avail=%ld consumed=%d interrupted=%d "
-                        "finished=%d cb_runs=%ld guard_perm=%s\n",
+                        "finished=%d cb_runs=%ld guard_perm=%s other_exception=%d\n",
                 d.id, w, d.cls, d.depth, d.nyield, d.nsleep, d.consume ? 1 : 0, d.dirty ? 1 : 0, d.fp_up ? 1 : 0,
                 (unsigned long) o.tid, o.start_intr_req ? 1 : 0, o.start_intr_enabled ? 1 : 0,
                 (unsigned long) o.start_data, o.exit_cb_accepted ? 1 : 0, (unsigned long) o.stack_size,
                 (long) o.avail_at_start, o.overlap ? 1 : 0, o.canary_ok ? 1 : 0, o.locals_ok ? 1 : 0,
                 o.data_ok ? 1 : 0, o.id_ok ? 1 : 0, (unsigned long) o.regmask, o.migrations, o.resumes,
                 o.fp_changed ? 1 : 0, o.fp_foreign ? 1 : 0, (long) o.min_avail, o.consumed ? 1 : 0,
-                o.interrupted ? 1 : 0, o.finished ? 1 : 0, g_cb_runs[d.id & 0xffff].load(), o.guard_perm);
+                o.interrupted ? 1 : 0, o.finished ? 1 : 0, g_cb_runs[d.id & 0xffff].load(), o.guard_perm, o.other_exception ? 1 : 0);
         }
         std::fflush(stdout);
     }
